@@ -324,6 +324,17 @@ def gen_exact(rng):
             xs.append(dict(start=start, vol=[v.numerator, v.denominator], lim=lim, cancel=cancel,
                            how=rng.choice(['cancel', 'cancel', 'until'])))
         case = dict(family='exact', exact=True, T=[T, 1], pipe='Pipe', xs=xs, probe=[T, 1])
+        if rng.random() < 0.25:
+            # the same shape at a tiny magnitude (volumes, limits and throughput times 2**-34, durations unchanged): the
+            # fluid model has no absolute scale, so neither may the implementation
+            k = 2 ** 34
+            for x in xs:
+                x['vol'] = [x['vol'][0], x['vol'][1] * k]
+                if x['lim'] is not None:
+                    x['lim'] = [x['lim'][0], x['lim'][1] * k]
+            case['T'] = [T, k]
+            case['probe'] = [T, k]
+            case['micro'] = True
         res, ties, scales, overlap, end = fluid(case)
         if all(pow2(s) for s in scales) and all(
                 r is None or (pow2(F(r.denominator)) and r.denominator <= 2 ** 20) for r in res.values()):
